@@ -26,7 +26,9 @@ type c16srv struct {
 	tcpSeen []int  // nonces carried by queries seen on TCP
 	udpRaw  []byte // last UDP query with the id zeroed
 	tcpSame bool
-	port    int
+	// close the TCP connection after each reply (a server that serves one query per connection)
+	closeAfterReply bool
+	port            int
 	uc      *net.UDPConn
 	tl      net.Listener
 }
@@ -129,6 +131,12 @@ func c16setup() {
 					binary.BigEndian.PutUint16(out, uint16(len(rb)))
 					copy(out[2:], rb)
 					c.Write(out)
+					c16.mu.Lock()
+					cl := c16.closeAfterReply
+					c16.mu.Unlock()
+					if cl {
+						return
+					}
 				}
 			}()
 		}
@@ -222,6 +230,57 @@ func c16gen(r *rand.Rand, thorough bool, emit func(c, cat string)) {
 	}
 }
 
+// fallbackseq: several truncated queries in a row on ONE upstream; with close=1 the TCP server closes the
+// connection after every reply, so the 2nd, 3rd … query finds a stale pooled TCP connection (the leg must retry
+// on a fresh one and the caller must still get the TCP reply, not an error and not the truncated message).
+// case : seq=<k> close=<0|1> gap=<ms> q=<nonce>      out : res=<ok|tc|err>,…
+func c16runSeq(cs string) string {
+	m := kv(cs)
+	k, gap := atoi(m["seq"]), atoi(m["gap"])
+	c16.mu.Lock()
+	c16.closeAfterReply = m["close"] == "1"
+	c16.mu.Unlock()
+	defer func() { c16.mu.Lock(); c16.closeAfterReply = false; c16.mu.Unlock() }()
+	up, err := upstream.NewUpstream(fmt.Sprintf("127.0.0.1:%d", c16.port), upstream.Opt{})
+	if err != nil {
+		return "newupstream-error"
+	}
+	defer up.Close()
+	var res []string
+	for i := 0; i < k; i++ {
+		c16.mu.Lock()
+		c16.u, c16.t = fmt.Sprintf("ok:%d:1", 1000+i), fmt.Sprintf("ok:%d:0", 2000+i)
+		c16.mu.Unlock()
+		q := new(dns.Msg)
+		q.SetQuestion(fmt.Sprintf("q%d.test.", atoi(m["q"])+i), dns.TypeA)
+		qb, _ := q.Pack()
+		ctx, cancel := context.WithTimeout(context.Background(), 2*time.Second)
+		r, err := up.ExchangeContext(ctx, qb)
+		cancel()
+		switch {
+		case err != nil || r == nil:
+			res = append(res, "err")
+		case r.Header.Truncated:
+			res = append(res, "tc")
+		default:
+			res = append(res, "ok")
+		}
+		time.Sleep(time.Duration(gap) * time.Millisecond)
+	}
+	return "res=" + strings.Join(res, ",")
+}
+
+func c16genSeq(r *rand.Rand, thorough bool, emit func(c, cat string)) {
+	n := 4
+	if thorough {
+		n = 40
+	}
+	for i := 0; i < n; i++ {
+		emit(fmt.Sprintf("seq=%d close=%d gap=%d q=%d", 2+r.Intn(3), i%2, []int{5, 30, 100}[r.Intn(3)], 1+r.Intn(1<<20)), fmt.Sprintf("close%d", i%2))
+	}
+}
+
 func init() {
 	register("fallback", &component{gen: c16gen, run: c16run, setup: c16setup})
+	register("fallbackseq", &component{gen: c16genSeq, run: c16runSeq, setup: c16setup})
 }
